@@ -284,13 +284,68 @@ def check_env_transparency(ck):
     ck.encoded({"function": "initial/transition/observation/reward/terminal/truncate of 5 classic-control environments and 2 wrapper stacks", "equations": 0, "inputs": 0, "outputs": 0})
 
 
+def check_mujoco_transparency(ck, names):
+    """MuJoCo / G1 components with the physics engine stubbed (uninterpreted, batching rule): traced without Python branching on values, and
+    the vmapped component is lane-wise equal to the unbatched one"""
+    import lerax.env.mujoco as lm
+    from jaxsmt.mjxstubs import MjxStub
+    B = 2
+
+    def bstruct(tree):
+        return jax.tree_util.tree_map(lambda x: jax.ShapeDtypeStruct((B,) + tuple(x.shape), x.dtype) if hasattr(x, "shape") else x, tree)
+    for ename in names:
+        if ename.startswith("G1"):
+            import lerax.env.unitree.g1 as g1
+            env = getattr(g1, ename)()
+            model = env.base_model
+        else:
+            env = getattr(lm, ename)()
+            model = env.model
+        stub = MjxStub(model)
+        ck.stub(*stub.notes(ename))
+        with stub, stubs.prng_stubs():
+            st = jax.eval_shape(lambda k: env.initial(key=k), jr.key(0))
+            act = jax.ShapeDtypeStruct(env.action_space.shape, jnp.float32)
+            key = jr.key(0)
+            comps = {
+                "transition": (lambda s, a, k: env.transition(s, a, key=k), [st, act, key], ["s", "a", "key"]),
+                "observation": (lambda s, k: env.observation(s, key=k), [st, key], ["s", "key"]),
+                "reward": (lambda s, a, s2, k: env.reward(s, a, s2, key=k), [st, act, st, key], ["s", "a", "s2", "key"]),
+                "terminal": (lambda s, k: env.terminal(s, key=k), [st, key], ["s", "key"]),
+            }
+            for cname, (f, ex, argn) in comps.items():
+                try:
+                    tr1 = trace(f, *ex, argnames=argn, label=f"{ename}.{cname}")
+                    exB = [jr.split(a, B) if (hasattr(a, "dtype") and jax.dtypes.issubdtype(a.dtype, jax.dtypes.prng_key)) else bstruct(a) for a in ex]
+                    trB = trace(lambda *a, f=f: jax.vmap(f)(*a), *exB, argnames=argn, label=f"vmap({ename}.{cname})")
+                    ok = True
+                except jax.errors.TracerBoolConversionError:
+                    ok = False
+                ck.fact(f"nofork.{ename}.{cname}", ok, "traces without converting a traced value to a Python bool")
+                if not ok:
+                    continue
+                itB = Interp()
+                SBt = trB.symbols(itB)
+                outB = trB.run(itB, SBt)
+                goals = []
+                for lane in range(B):
+                    it1 = Interp()
+                    S1 = {n: (arr0(SBt[n][lane]) if not isinstance(SBt[n][lane], np.ndarray) else SBt[n][lane]) for n in tr1.in_names}
+                    out1 = tr1.run(it1, S1)
+                    for n in tr1.out_names:
+                        a = outB[n][lane]
+                        a = arr0(a) if not isinstance(a, np.ndarray) else a
+                        goals.append(eq_arr(a, out1[n]))
+                ck.prove(f"vmap.{ename}.{cname}", [], conj(goals), replay=lambda res, e=ename, c=cname: (True, {"note": f"vmapped {e}.{c} differs from the per-element call (physics stubbed)"}), sample=False, timeout=60)
+
+
 def main():
     ck = Check("C12", "transformations transparent, lanes never mix")
     ck.mode = "REAL"
     ck.bound(envs=2, rollout_steps=2, batch=2, actions=["Discrete(3)", "Box(2)"] if ck.thorough else ["Discrete(3)", "Box(2) (on-policy)"])
     ck.stub("environment and policy uninterpreted (lanes statement)", *stubs.ODE_NOTES, "PRNG samplers: contract stubs (uf of the key), keys: free algebra",
             "probe subclasses cut `train` out of iteration() to expose the collected data (the collection code is the real one)")
-    ck.out("floating-point reassociation differences between modes", "MuJoCo/G1 component equivalence under vmap (physics is a black box; see C17/C20 for their formulas)",
+    ck.out("floating-point reassociation differences between modes", "MuJoCo component equivalence under vmap is shown with the physics engine stubbed (2 environments quick, all 11 thorough); G1 components and the real MJX kernels under vmap are outside the claim",
            "XLA numerics of jit vs eager")
     for kind in (("discrete", "box")):
         with ck.section(f"onpolicy.{kind}"):
@@ -300,6 +355,11 @@ def main():
             check_offpolicy_lanes(ck, kind)
     with ck.section("env_transparency"):
         check_env_transparency(ck)
+    mj = ["HalfCheetah", "InvertedPendulum"] if not ck.thorough else ["Ant", "HalfCheetah", "Hopper", "Humanoid", "HumanoidStandup", "InvertedDoublePendulum", "InvertedPendulum", "Pusher", "Reacher",
+                                                                      "Swimmer", "Walker2d"]
+    for ename in mj:
+        with ck.section(f"mujoco_transparency.{ename}"):
+            check_mujoco_transparency(ck, [ename])
     ck.finish("The vectorised collection code path of iteration() (filter_vmap(collect_rollout) over per-environment step states and split keys) and the "
               "single-environment collect_rollout are both traced over an uninterpreted environment/policy; every output lane (env state, step count, "
               "policy state, observations, actions, rewards, dones, log-probs, values, returns, advantages; replay rows for off-policy) is shown equal to "
